@@ -6,7 +6,7 @@
    The page settings of a run do not appear here on purpose: the model's answer depends on the
    match list only, so any dependence of the implementation on them shows up as a mismatch. *)
 From Coq Require Import ZArith List Bool.
-From Verif Require Import Common.Bytes Numeric.Model Extracted.Extracted Collect.Facets.
+From Verif Require Import Common.Bytes Numeric.Model Collect.Facets.
 Import ListNotations.
 Local Open Scope Z_scope.
 
@@ -15,17 +15,23 @@ Local Open Scope Z_scope.
    uninverted cache / upsidedown back-index row), so a value indexed twice is visited once.  The
    order inside a document is irrelevant to the model (counts are sums). *)
 
+(* index-time precision steps of numeric and datetime fields (document/field_numeric.go,
+   field_datetime.go); Extracted/Obligations_C10.v re-checks them against the facts regenerated
+   from /repo on every run *)
+Definition dv_step_numeric : Z := 4.
+Definition dv_step_datetime : Z := 4.
+
 (* keyword analyser: one term per value, the value's bytes *)
 Definition dv_text (vals : list bytes) : doc := dedup vals.
 
 (* numeric field: prefix-coded terms of every shift 0, step, 2*step, ... of Float64ToInt64(value);
-   [vals] are float64 bit patterns; step from the regenerated facts (document/field_numeric.go) *)
+   [vals] are float64 bit patterns *)
 Definition dv_num (vals : list Z) : doc :=
-  dedup (flat_map (fun b => index_terms XNumeric.precision_step_numeric (f2i b)) vals).
+  dedup (flat_map (fun b => index_terms dv_step_numeric (f2i b)) vals).
 
 (* datetime field: the same over UnixNano; [vals] are int64 nanoseconds *)
 Definition dv_date (vals : list Z) : doc :=
-  dedup (flat_map (fun ns => index_terms XNumeric.precision_step_datetime ns) vals).
+  dedup (flat_map (fun ns => index_terms dv_step_datetime ns) vals).
 
 Inductive run :=
 | RTerms (size : Z) (prefix : bytes) (rx : option regex) (impl : facet_result)
